@@ -31,6 +31,7 @@ THEOREMS = [NS + t for t in (
     "C11_rep_step",
     "C11_rep_history",
     "C11_refine_step",
+    "C11_rep_toList",
     "C11_refine_next",
     "C11_refine_start",
     "C11_refine_rest",
@@ -414,6 +415,13 @@ class Hist:
             for x in range(self.universe):
                 if b.has(x) != (x in L):
                     self.fail("contains", f"({x} in c)={b.has(x)} but list(c)={L}")
+            for sl in (slice(1, None), slice(None, None, -1), slice(-2, None), slice(0, n, 2)):
+                try:
+                    got = [b.oid(o) for o in b.c[sl]]
+                except Exception as e:  # noqa: BLE001
+                    got = "raised " + type(e).__name__
+                if got != L[sl]:
+                    self.fail("getitem-slice", f"c[{sl}]={got} expected {L[sl]}")
         return L
 
     def init_with(self, init):
@@ -518,6 +526,35 @@ class Hist:
                       simple_removed=v)
         else:
             raise AssertionError(o)
+
+    def query(self, op):
+        """`c[i]` / `x in c` / `len(c)` as explicit steps (compared with the model's getItem / contains / len)."""
+        b = self.box
+        try:
+            if op["o"] == "get":
+                r = b.get(op["i"])
+            elif op["o"] == "has":
+                r = b.has(op["v"])
+            else:
+                r = b.length()
+        except IndexError:
+            r = None
+        except Exception as e:  # noqa: BLE001
+            r = None
+            self.fail("query-raised", f"{op} raised {type(e).__name__}: {e}")
+        self.ops.append(op)
+        self.lastop = op["o"]
+        L = self.ref.L
+        if op["o"] == "get":
+            i = op["i"]
+            want = L[i] if -len(L) <= i < len(L) else None
+        elif op["o"] == "has":
+            want = op["v"] in L
+        else:
+            want = len(L)
+        if r != want:
+            self.fail("query", f"{op} = {r}, the reference sequence {L} gives {want}")
+        self.snapshot(r)
 
     def do_sort(self, rng):
         self._pre()
@@ -659,6 +696,15 @@ def random_history(kind, rng, part, n0, nops, universe):
         ncur = len(h.curs)
         if ncur == 0 or (ncur < 3 and r < 0.07):
             h.new_iter(rng.choice("fr"))
+        elif r < 0.12:
+            n = len(h.ref.L)
+            q = rng.choice(["get", "get", "has", "len"])
+            if q == "get":
+                h.query({"o": "get", "i": rng.randrange(-n - 2, n + 2)})
+            elif q == "has":
+                h.query({"o": "has", "v": rng.randrange(h.universe)})
+            else:
+                h.query({"o": "len"})
         elif r < 0.42:
             h.step(rng.randrange(ncur))
         elif r < 0.55:
@@ -918,7 +964,7 @@ def _work_random(job):
         nops = rng.choice([6, 12, 20, 30, 45])
         universe = n0 + rng.choice([2, 3, 5])
         h, _tail = random_history(kind, rng, part, n0, nops, universe)
-        nedit = sum(1 for o in h.ops if o["o"] not in ("next", "iter"))
+        nedit = sum(1 for o in h.ops if o["o"] not in ("next", "iter", "get", "has", "len"))
         part.case([kind, h.init, h.ops], nontrivial=nedit > 0 and len(h.curs) > 0,
                   sample={"kind": kind, "init": h.init, "ops": h.ops[:12]},
                   kind=kind, cursors=len(h.curs), edits=min(nedit, 20) // 5 * 5, n0=n0)
@@ -1020,7 +1066,6 @@ def run(ctx: Ctx) -> None:
     for part, _ in pmap(_work_random, jobs):
         ctx.merge(part)
     # exhaustive small scope
-    depth = ctx.pick(2, 3)
     sjobs = []
     for kind in ("dls", "graph"):
         for n0 in range(0, 4):
@@ -1028,14 +1073,21 @@ def run(ctx: Ctx) -> None:
                 for pre in itertools.product(range(0, n0 + 1), repeat=2):
                     if kind == "graph" and (n0 < 3 or dirs != "fr"):
                         continue
+                    deep = n0 < 3 or dirs == "fr"
+                    if kind == "graph" and sum(pre) > 4:
+                        deep = False
+                    depth = 2 if ctx.quick or not deep else 3
                     sjobs.append((kind, n0, n0 + 1, dirs, list(pre), depth))
+    sjobs.sort(key=lambda j: -j[5] * 10 - j[1])  # long jobs first
     for part, _ in pmap(_work_small, sjobs):
         ctx.merge(part)
     ctx.exhaustive_scopes.append(
-        f"DoublyLinkedSet: every sequence of <= {depth} operations from "
-        "{next(c0), next(c1), remove x, append x, insert_after(a,[x]), insert_before(a,[x])} (x over the initial nodes "
-        "+ 1 fresh node, a over present nodes) on every initial sequence of <= 3 nodes, 2 cursors in every direction "
-        "pair (ff, fr, rr), each pre-advanced by every count 0..n; ir.Graph: same for n = 3, direction pair fr"
+        "DoublyLinkedSet: every sequence of <= 2 operations (thorough: <= 3 for initial sequences of <= 2 nodes and, "
+        "for 3 nodes, for the direction pair fr) from {next(c0), next(c1), remove x, append x, insert_after(a,[x]), "
+        "insert_before(a,[x])} (x over the initial nodes + 1 fresh node, a over the present nodes) on every initial "
+        "sequence of <= 3 nodes with 2 cursors in every direction pair (ff, fr, rr), each pre-advanced by every count "
+        "0..n; ir.Graph: the same for n = 3, direction pair fr (thorough: <= 3 operations when the pre-advance counts "
+        "sum to <= 4)"
     )
 
 
@@ -1058,6 +1110,8 @@ def replay(ctx: Ctx, obj: dict) -> None:
             h.new_iter(op["d"])
         elif op["o"] == "next":
             h.step(op["k"])
+        elif op["o"] in ("get", "has", "len"):
+            h.query(dict(op))
         else:
             h.do(dict(op))
     h.finish()
